@@ -469,6 +469,8 @@ pub fn get_best_move_until_stop(
             }
         })
         .unwrap_or(1);
+    // A deeper cached result must not carry the search past the requested depth
+    let starting_depth = max_depth.map_or(starting_depth, |max_depth| starting_depth.min(max_depth).max(1));
 
     for depth in starting_depth.. {
         #[cfg(daniel729_chess_verif)]
